@@ -4,6 +4,7 @@ import (
 	"fmt"
 	"sort"
 	"strings"
+	"verif/tools/relang"
 
 	"golang.org/x/tools/go/ssa"
 
@@ -22,6 +23,8 @@ type ugcSpec struct {
 	NoCalls   []string            `json:"forbidden_calls"`
 	Skip      []string            `json:"default_skip_content"`
 	URLAttrs  map[string][]string `json:"url_attributes"`
+	Examples  map[string]any      `json:"value_examples"`
+	PassBare  []string            `json:"pass_without_attributes"`
 	Cmd       map[string]struct {
 		Base     string          `json:"base"`
 		Flags    map[string]bool `json:"extra_flags"`
@@ -53,6 +56,7 @@ func runC04(c *Ctx) {
 	R.Rule("C04.R2", "UGC upper bound: every element of the evaluated UGCPolicy table is in the documented vocabulary and none is forbidden (script, style, iframe, object, embed, form controls, base, meta, link, svg, math, …); every (element, attribute) rule and every global attribute is documented; no attribute named style or starting with on; schemes are exactly mailto/http/https, no scheme regexp or custom scheme; relative URLs, nofollow and URL checking are on; none of AllowUnsafe, AllowDataAttributes, AllowComments, AllowStyles, RewriteSrc, element patterns … is reached")
 	R.Rule("C04.R3", "UGC lower bound: every documented element and (element, attribute) pair is present in the evaluated table (conforming documents pass), and the only thing the policy adds is rel=nofollow")
 	R.Rule("C04.R4", "every URL-valued attribute allowed by UGCPolicy (href, cite, src) sits at one of the URL-checked positions of C03, and attributes without a value pattern are exactly those URL attributes")
+	R.Rule("C04.R6", "value patterns do not reject conforming values: every pattern UGCPolicy registers for an attribute (globally or on an element) accepts the conforming example values of spec/ugc_vocabulary.json for that attribute (exact DFA membership under MatchString semantics)")
 	R.Rule("C04.R5", "defaults: NewPolicy's skip-content set contains script, style, iframe, object, title, noscript, noembed, noframes, frameset, nostyle")
 	R.Assume(TrustGo, "builder methods have their documented meaning (C17) and the sanitiser honours the tables (C01–C03); what an HTML5 parser builds from the output is NOT decided")
 	var spec ugcSpec
@@ -92,6 +96,13 @@ func runC04(c *Ctx) {
 	fn := c.P.Func(load.ModPath, "UGCPolicy")
 	pos := c.P.Pos(fn.Pos())
 	docEl := spec.Elements
+	c04Examples(c, t, &spec, pos)
+	nb := 0
+	for _, e := range spec.PassBare {
+		nb++
+		R.Check(t.Bare[e], "C04.R3", "bare:"+e, "UGCPolicy: <"+e+"> without attributes", pos, "in the set of elements allowed without attributes", "a documented element that needs no attribute is dropped when it carries none: a conforming document does not pass unchanged")
+	}
+	R.Role("C04.R3", "elements that must pass without attributes", nb, 50)
 	forb := setOf(spec.Forbidden)
 	glob := setOf(spec.Global)
 	// R2 upper bound
@@ -207,3 +218,80 @@ func countRules(t *policyx.Table) int {
 }
 
 var _ = ssa.Value(nil)
+
+// c04Examples (C04.R6): each registered value pattern accepts the conforming examples for its attribute.
+func c04Examples(c *Ctx, t *policyx.Table, spec *ugcSpec, pos string) {
+	R := c.R
+	var keys []string
+	for k := range spec.Examples {
+		if !strings.HasPrefix(k, "_") {
+			keys = append(keys, k)
+		}
+	}
+	sort.Strings(keys)
+	n := 0
+	for _, k := range keys {
+		var exs []string
+		if arr, ok := spec.Examples[k].([]any); ok {
+			for _, e := range arr {
+				if s, ok := e.(string); ok {
+					exs = append(exs, s)
+				}
+			}
+		}
+		el, attr := "", k
+		if i := strings.Index(k, "."); i >= 0 {
+			el, attr = k[:i], k[i+1:]
+		}
+		var rules []policyx.AttrRule
+		where := "globally"
+		if el == "" {
+			for _, r := range t.GlobalAttrs {
+				if r.Attr == attr {
+					rules = append(rules, r)
+				}
+			}
+		} else {
+			where = "on <" + el + ">"
+			for _, r := range t.ElemAttrs[el] {
+				if r.Attr == attr {
+					rules = append(rules, r)
+				}
+			}
+		}
+		if len(rules) == 0 {
+			R.Fail("C04.R6", "examples:"+k, "UGCPolicy: value pattern of "+attr+" "+where, pos, "no rule registered for this attribute (conforming values are dropped)")
+			continue
+		}
+		for ri, r := range rules {
+			if !r.HasPat {
+				continue
+			}
+			n++
+			b := relang.NewBuilder()
+			if err := b.AddPattern(r.Pattern); err != nil {
+				R.Unknown("C04.R6", fmt.Sprintf("examples:%s#%d", k, ri+1), "UGCPolicy: value pattern of "+attr+" "+where, pos, err.Error())
+				continue
+			}
+			for _, e := range exs {
+				b.AddString(e)
+			}
+			d, err := relang.FromRegexp(r.Pattern, b.Build())
+			if err != nil {
+				R.Unknown("C04.R6", fmt.Sprintf("examples:%s#%d", k, ri+1), "UGCPolicy: value pattern of "+attr+" "+where, pos, err.Error())
+				continue
+			}
+			bad := ""
+			for _, e := range exs {
+				if !d.Accepts(e) {
+					bad = e
+				}
+			}
+			o := R.Check(bad == "", "C04.R6", fmt.Sprintf("examples:%s#%d", k, ri+1), fmt.Sprintf("UGCPolicy: value pattern %q of %s %s", r.Pattern, attr, where), pos, fmt.Sprintf("accepts %d conforming examples", len(exs)), "the pattern rejects a conforming value: a document written in the documented vocabulary loses this attribute")
+			if bad != "" {
+				o.Witness = bad
+			}
+		}
+	}
+	R.Role("C04.R6", "value patterns checked against examples", n, 10)
+}
